@@ -227,6 +227,206 @@ def run_flow(case):
         return {"rejected": False, "pre": obs_req, "main": obs, "crash": obs["crash"]}
 
 
+# ---- exchanges over HTTP/1 or HTTP/2 peers, with the response arriving before / during / after the request body --------
+import h2.config, h2.connection, h2.events
+
+
+class H2Peer:
+    """a real hyper-h2 state machine as the client of, or the server behind, mitmproxy"""
+
+    def __init__(self, client_side):
+        self.c = h2.connection.H2Connection(h2.config.H2Configuration(client_side=client_side, header_encoding=False,
+                                                                      validate_inbound_headers=False))
+        self.c.initiate_connection()
+        self.head, self.chunks, self.ended, self.reset, self.sid = None, [], False, False, None
+
+    def receive(self, data):
+        for ev in self.c.receive_data(data):
+            if isinstance(ev, (h2.events.RequestReceived, h2.events.ResponseReceived)):
+                self.head, self.sid = dict(ev.headers), ev.stream_id
+            elif isinstance(ev, h2.events.DataReceived):
+                if ev.data: self.chunks.append(bytes(ev.data))
+                self.c.acknowledge_received_data(ev.flow_controlled_length, ev.stream_id)
+            elif isinstance(ev, h2.events.StreamEnded): self.ended = True
+            elif isinstance(ev, h2.events.StreamReset): self.reset = True
+
+
+def run_x2(case):
+    """one exchange: client protocol cp, upstream protocol sp, request body and response body; the response block is
+    delivered as soon as at least case['resp_at'] request chunks have been delivered AND the upstream has the request"""
+    cp, sp = case["cp"], case["sp"]
+    rq, rs = case["pre"], case
+    pols = {False: rq["policy"], True: rs["policy"]}
+    with taddons.context(proxyserver.Proxyserver()) as tctx:
+        tctx.options.update(body_size_limit=case["limit"], stream_large_bodies=case["thr"],
+                            store_streamed_bodies=bool(case["store"]), http2_ping_keepalive=0)
+        ctx = make_context(opts=tctx.options)
+        if cp == "h2": ctx.client.alpn = b"h2"
+        lay = http.HttpLayer(ctx, HTTPMode.regular)
+        seen = {"flow": None, "err": []}
+        stream = [None]
+
+        def on_hook(w, h):
+            if stream[0] is None and lay.streams: stream[0] = next(iter(lay.streams.values()))
+            if h.name == "server_connected" and sp == "h2": h.data.server.alpn = b"h2"
+            f = getattr(h, "flow", None)
+            if f is not None and hasattr(f, "request"): seen["flow"] = f
+            for is_resp, hook in ((False, "requestheaders"), (True, "responseheaders")):
+                if h.name == hook and pols[is_resp] != "none":
+                    (f.response if is_resp else f.request).stream = policy_value(pols[is_resp])
+            if h.name == "error":
+                seen["err"].append((f.error.msg if f.error else ""))
+        w = World(lay, ctx, on_hook=on_hook)
+        w.start()
+        cl = H2Peer(True) if cp == "h2" else None
+        sv = [None]
+        off = {"client": 0, "server0": 0}
+
+        def pump():
+            """let the peers read what mitmproxy wrote, and deliver what they have to say (settings, acks, window updates)"""
+            for _ in range(6):
+                moved = False
+                for lab in ("client", "server0"):
+                    raw = w.sent_to(lab)
+                    new, off[lab] = raw[off[lab]:], len(raw)
+                    peer = cl if lab == "client" else sv[0]
+                    if lab == "server0" and sp == "h2" and sv[0] is None and "server0" in w.conns:
+                        sv[0] = peer = H2Peer(False)
+                    if peer is None: continue
+                    if new:
+                        try: peer.receive(new)
+                        except Exception as e: seen.setdefault("h2err", []).append(type(e).__name__)
+                    out = peer.c.data_to_send()
+                    if out: moved = w.recv(lab, out) or moved
+                if not moved: break
+        if cl is not None:
+            w.recv("client", cl.c.data_to_send()); pump()
+
+        def peer_view(resp):
+            """(head seen?, status, chunks, ended properly, stray bytes) as the peer of direction `resp` sees it"""
+            lab, proto = ("client", cp) if resp else ("server0", sp)
+            if proto == "h2":
+                peer = cl if resp else sv[0]
+                if peer is None or peer.head is None: return False, None, [], False, b""
+                st = peer.head.get(b":status")
+                return True, (int(st) if st else None), list(peer.chunks), peer.ended and not peer.reset, b""
+            raw = w.sent_to(lab)
+            phead, pbody = split_head(raw)
+            if phead is None: return False, None, [], False, b""
+            status = status_of(raw) if resp else None
+            hl = phead.lower()
+            if b"transfer-encoding: chunked" in hl:
+                chunks, ok, left = read_chunked(pbody)
+                return True, status, chunks, ok, left
+            pieces, acc = [], b""
+            for l2, data in w.sent_log:
+                if l2 != lab: continue
+                if len(acc) >= len(phead): pieces.append(data)
+                acc += data
+            return True, status, [p for p in pieces if p], True, b""
+
+        sides = {False: {"samples": [], "head_at": None, "n": 0, "err0": 0}, True: {"samples": [], "head_at": None, "n": 0, "err0": 0}}
+
+        def after_delivery(resp):
+            pump()
+            sd = sides[resp]
+            if stream[0] is None and lay.streams: stream[0] = next(iter(lay.streams.values()))
+            st = stream[0]
+            sd["samples"].append(0 if st is None else len(st.response_body_buf if resp else st.request_body_buf))
+            seen_head, status, _, _, _ = peer_view(resp)
+            if sd["head_at"] is None and seen_head and not (resp and status != 200): sd["head_at"] = sd["n"]
+            sd["n"] += 1
+
+        def message(resp, sub):
+            """the deliveries of one message: list of thunks"""
+            chunks = [unhx(c) for c in sub["chunks"]]
+            body = b"".join(chunks)
+            proto = sp if resp else cp
+            lab = "server0" if resp else "client"
+            fr = sub["framing"]
+            out = []
+            if proto == "h1":
+                fh = b"Content-Length: %d\r\n" % len(body) if fr == "cl" else b"Transfer-Encoding: chunked\r\n" if fr == "chunked" else b""
+                head = (b"HTTP/1.1 200 OK\r\n" if resp else b"POST http://a.example/p HTTP/1.1\r\nHost: a.example\r\n") + fh + b"\r\n"
+                out.append(lambda: w.recv(lab, head))
+                for c in chunks:
+                    out.append(lambda c=c: w.recv(lab, (b"%x\r\n%s\r\n" % (len(c), c)) if fr == "chunked" else c))
+                if fr == "chunked": out.append(lambda: w.recv(lab, b"0\r\n\r\n"))
+                if fr == "eof": out.append(lambda: w.peer_close(lab))
+            else:
+                def hdrs():
+                    peer = sv[0] if resp else cl
+                    if resp: h = [(b":status", b"200")]
+                    else: h = [(b":method", b"POST"), (b":scheme", b"http"), (b":authority", b"a.example"), (b":path", b"/p")]
+                    if fr == "cl": h.append((b"content-length", str(len(body)).encode()))
+                    sid = peer.sid if resp else 1
+                    peer.c.send_headers(sid, h, end_stream=(fr == "cl" and not chunks))
+                    w.recv(lab, peer.c.data_to_send())
+                out.append(hdrs)
+                for i, c in enumerate(chunks):
+                    def data(c=c, last=(fr == "cl" and i == len(chunks) - 1)):
+                        peer = sv[0] if resp else cl
+                        peer.c.send_data(peer.sid if resp else 1, c, end_stream=last)
+                        w.recv(lab, peer.c.data_to_send())
+                    out.append(data)
+                if fr != "cl":
+                    def end():
+                        peer = sv[0] if resp else cl
+                        peer.c.send_data(peer.sid if resp else 1, b"", end_stream=True)
+                        w.recv(lab, peer.c.data_to_send())
+                    out.append(end)
+            return out
+
+        req_msgs = message(False, rq)
+        n_req_data = len(rq["chunks"])
+        resp_done = [False]
+        resp_pos = [None]
+
+        def upstream_has_request():
+            if "server0" not in w.conns: return False
+            if sp == "h2": return sv[0] is not None and sv[0].sid is not None
+            return split_head(w.sent_to("server0"))[0] is not None
+
+        def maybe_respond(k):
+            """k = request data deliveries made so far (n+1: the request is complete)"""
+            if resp_done[0] or k < min(case["resp_at"], n_req_data + 1) or not upstream_has_request(): return
+            if any(LIMIT_MSG in e for e in seen["err"]): return
+            resp_done[0] = True; resp_pos[0] = k
+            sides[True]["err0"] = len(seen["err"])
+            for th in message(True, rs):
+                th(); after_delivery(True)
+        # request head
+        req_msgs[0](); after_delivery(False)
+        k = 0
+        for th in req_msgs[1:]:
+            maybe_respond(min(k, n_req_data))
+            th(); after_delivery(False)
+            k += 1
+        maybe_respond(n_req_data + 1)
+        fl = seen["flow"]
+
+        def side_obs(resp):
+            sd = sides[resp]
+            seen_head, status, chunks, ended, left = peer_view(resp)
+            relayed = seen_head and not (resp and status != 200)
+            msg = None if fl is None else (fl.response if resp else fl.request)
+            content = None if msg is None else msg.raw_content
+            # errors: the limit error is attributed to the direction it names
+            word = "Response" if resp else "Request"
+            errs = [e for e in seen["err"] if not (LIMIT_MSG in e and not e.startswith(word))]
+            cst = peer_view(True)[1] if cp == "h2" else status_of(w.sent_to("client"))
+            return {"rejected": False, "errors": errs, "client_status": cst, "client_closed": ctx.client.state.name == "CLOSED",
+                    "relayed": relayed, "head_at": sd["head_at"], "out_framing": None,
+                    "peer_chunks": [hx(c) for c in chunks] if relayed else [], "framing_ok": bool(ended) if relayed else True,
+                    "leftover_hex": hx(left), "samples": sd["samples"],
+                    "content_hex": None if content is None else hx(content),
+                    "crash": [e[0] + ": " + e[1] for e in w.errors] + seen.get("h2err", []),
+                    "n_deliveries": sd["n"], "proto_err": False, "trailer": False}
+        obs_req = side_obs(False)
+        obs_resp = side_obs(True) if resp_done[0] else None
+        return {"rejected": False, "pre": obs_req, "main": obs_resp, "at": resp_pos[0], "crash": obs_req["crash"]}
+
+
 def trailer_seen(lay, ctx, resp, w, proto_err):
     """the chunked reader met a non-empty trailer section (mitmproxy: NotImplementedError once it is complete)"""
     if any(e[0] == "NotImplementedError" for e in w.errors): return True
@@ -284,21 +484,23 @@ class Check(PropertyCheck):
                   "driven by Http1Connection.read_body) as an Incremental byte consumer, and of human.parse_size over the "
                   "regenerated SIZE_UNITS table — for ALL option values, expected sizes, wire bytes, segmentations, chunk lists "
                   "and callables (induction): over_limit_errors, buffer_bound_partial (+ buffer_bound_counterexample for the "
-                  "recorded finding), response_side_independent / request_side_independent / request_verdict_never_reaches_response "
+                  "recorded finding), response_side_independent / request_side_independent / request_verdict_never_reaches_response / upload_unaffected_by_response_timing "
                   "(one exchange: the request-side verdict, flags and buffers never take part in the response side), streamed_exact, relayed_exact_any_chunking, relayed_exact_events, stored_iff_option, "
                   "unstored_stream_holds_nothing, reader_lawful / reader_segmentation_independent, wire_events_carry_body, "
                   "wire_body_segmentation_independent, wire_relay_segmentation_independent (the same wire bytes in any two "
                   "segmentations deliver the same bytes to the peer), parseSize laws. The model is tied to the real "
                   "HttpLayer/HttpStream/Http1 stack run through world.py: error hook, client error, the exact chunk list the peer "
                   "receives, the buffer length after every delivery, the stored content and the readers' verdict are compared for "
-                  "both directions (also both in ONE exchange: request body and response body with independently drawn sizes), three framings, all option combinations, fourteen stream policies, chunk-aligned deliveries "
+                  "both directions, HTTP/1 and HTTP/2 peers on either side (all four pairs) with the response arriving before, during "
+                  "or after the request body (also both in ONE exchange: request body and response body with independently drawn sizes), three framings, all option combinations, fourteen stream policies, chunk-aligned deliveries "
                   "AND raw wire bytes (well-formed and mutated chunked encoding) in arbitrary segmentations.")
     level_note = ("trusted: Lean kernel; the differential tie (grid + exhaustive small chunkings + random wires/segmentations). The "
                   "body readers are modelled as byte automata — a reformulation of h11's buffer-based readers (extract-at-most / "
                   "extract-next-line), validated against the real h11 0.16 readers under random segmentation, not derived from "
                   "their source; a non-empty HTTP/1 trailer section (NotImplementedError in mitmproxy) is outside the model and "
                   "excluded from comparison. HTTP/1 re-framing towards the peer is checked by an independent strict chunked "
-                  "reader in the harness, not proved; HTTP/2 and HTTP/3 peers are not driven (same HttpStream code); flows whose "
+                  "reader in the harness, not proved; HTTP/2 peers are real hyper-h2 state machines (plaintext, alpn set in the server_connected hook), their framing and "
+                  "flow control are the library's, HTTP/3 is not driven; flows whose "
                   "response an addon sets before the body arrives are outside the model. wire_relay_segmentation_independent "
                   "is stated for runs that end `done` without a callable (with a late switch the outcome abort-vs-stream itself "
                   "depends on the segmentation in the code). partial: buffer_bound is proved under the guard 'not "
@@ -327,6 +529,9 @@ class Check(PropertyCheck):
                     "mitmproxy.proxy.layers.http._http1:Http1Server.send",
                     "mitmproxy.proxy.layers.http._http1:Http1Connection.read_body",
                     "mitmproxy.proxy.layers.http._http1:make_body_reader",
+                    "mitmproxy.proxy.layers.http._http2:Http2Client.handle_h2_event",
+                    "mitmproxy.proxy.layers.http._http2:Http2Connection.handle_h2_event",
+                    "mitmproxy.proxy.layers.http._http2:Http2Connection._handle_event",
                     "mitmproxy.utils.human:parse_size",
                     "mitmproxy.addons.proxyserver:Proxyserver.configure"]
     trusted_base = ["h11 body readers (ContentLengthReader/ChunkedReader/Http10Reader) as the source of data events",
@@ -403,7 +608,10 @@ class Check(PropertyCheck):
                             xgrid.append(self._exch(rng, lim, thr, None, nq, nr, frq, frr, "none", "none"))
         rng.shuffle(grid); rng.shuffle(xgrid)
         if tier == "quick": grid, xgrid = grid[:1200], xgrid[:400]
+        x2grid = [self._x2(rng, cp, sp, at) for cp in ("h1", "h2") for sp in ("h1", "h2") for at in (0, 1, 2, 9) for _ in range(12 if tier == "quick" else 60)]
+        rng.shuffle(x2grid)
         yield from xgrid
+        yield from x2grid
         yield from grid
         sz = lambda n: str(n)
         while True:
@@ -414,8 +622,11 @@ class Check(PropertyCheck):
             if r < 0.4:
                 yield self._wire(rng)
                 continue
-            if r < 0.6:
+            if r < 0.55:
                 yield self._exch(rng)
+                continue
+            if r < 0.7:
+                yield self._x2(rng)
                 continue
             d = rng.pick(["req", "resp"])
             fr = rng.pick(framings[d])
@@ -452,6 +663,28 @@ class Check(PropertyCheck):
                     "glue": rng.chance(0.2)}
         q = side(nq, frq, pq, ["cl", "chunked"]); r = side(nr, frr, pr, ["cl", "chunked", "eof"])
         c = {"op": "exch", "dir": "resp", "limit": lim, "thr": thr, "store": rng.randint(0, 1) if store is None else store, "pre": q}
+        c.update(r)
+        return c
+
+    @staticmethod
+    def _x2(rng, cp=None, sp=None, resp_at=None):
+        """exchange over HTTP/1 or HTTP/2 peers (all four pairs), both bodies possibly streamed, the response arriving
+        before / during / after the request body.  No body_size_limit here: the streamed-exactness clauses are the point."""
+        alpha = b"abcdefghijklmnopqrstuvwxyz"
+        cp = cp or rng.pick(["h1", "h2"]); sp = sp or rng.pick(["h1", "h2"])
+        def side(proto, resp):
+            n = rng.pick([0, 1, 2, 3, 4, 7, 12])
+            body = bytes(alpha[(i + (7 if resp else 0)) % 26] for i in range(n))
+            frs = ["cl", "nocl"] if proto == "h2" else (["cl", "chunked", "eof"] if resp else ["cl", "chunked"])
+            fr = rng.pick(frs)
+            # a callable that changes the length under a declared content-length makes an HTTP/2 peer reject the message
+            pols = ["none", "none", "true", "true", "id", "upper", "gen"] + ([] if fr == "cl" else ["mark", "drop", "dup"])
+            return {"framing": fr, "chunks": [hx(c) for c in (rng.split(body, rng.randint(1, 4)) if body else [])],
+                    "policy": rng.pick(pols), "glue": False}
+        q = side(cp, False); r = side(sp, True)
+        n = len(q["chunks"])
+        c = {"op": "x2", "dir": "resp", "cp": cp, "sp": sp, "limit": None, "thr": rng.pick([None, "2", "2", "5"]),
+             "store": rng.randint(0, 1), "resp_at": rng.randint(0, n + 1) if resp_at is None else resp_at, "pre": q}
         c.update(r)
         return c
 
@@ -523,6 +756,10 @@ class Check(PropertyCheck):
                 return {"size": human.parse_size(s)}
             except ValueError:
                 return {"size": "err"}
+        if case["op"] == "x2":
+            obs = run_x2(case)
+            self._stash = (json.dumps(case, sort_keys=True), obs)
+            return obs
         return run_flow(case)      # (non-ASCII option strings: the implementation and the oracle still run; only the
                                    #  ASCII-only model abstains, see model_lines)
 
@@ -533,11 +770,14 @@ class Check(PropertyCheck):
         shared = {k: case[k] for k in ("limit", "thr", "store")}
         req = dict(case["pre"], op="flow", dir="req", **shared)
         rsp = {k: v for k, v in case.items() if k != "pre"}; rsp["op"] = "flow"
+        for sub, e in ((req, "cl:0"), (rsp, "eof")):
+            if sub["framing"] == "nocl":        # HTTP/2 message without content-length: head, DATA frames, END_STREAM
+                sub["framing"], sub["exp"] = "chunked", e
         return [("req", req, obs["pre"]), ("resp", rsp, obs["main"])]
 
     def oracle(self, case, obs):
         if case["op"] == "size" or obs.get("rejected"): return []
-        if case["op"] == "exch":
+        if case["op"] in ("exch", "x2"):
             # the per-direction clauses, each on its own direction of the same exchange
             out = []
             for tag, sub, o in self._sides(case, obs):
@@ -651,7 +891,7 @@ class Check(PropertyCheck):
         """F-C07a exactly: store_streamed_bodies on, body_size_limit set, the body was being STREAMED (head relayed before
         the message ended), the flow did not error, the first moment the buffer exceeds the limit lies at or after the
         start of streaming, and the failure is one of the three consequences of the missing check."""
-        if case.get("op") == "exch":
+        if case.get("op") in ("exch", "x2"):
             for tag, sub, o in self._sides(case, obs):
                 if failure.startswith(tag + ": ") and o is not None:
                     return self.known(sub, o, failure[len(tag) + 2:])
@@ -725,12 +965,20 @@ class Check(PropertyCheck):
             return ["size " + case["s_hex"]]
         opt = lambda v: "none" if v is None else hx(v.encode())
         if any(case.get(k) is not None and not case[k].isascii() for k in ("limit", "thr")): raise Skip()
-        if case["op"] == "exch":
+        if case["op"] in ("exch", "x2"):
             def side(c):
                 tot = sum(len(unhx(x)) for x in c["chunks"])
-                e = f"cl:{tot}" if c["framing"] == "cl" else c["framing"]
+                e = c.get("exp") or (f"cl:{tot}" if c["framing"] == "cl" else c["framing"])
                 return f"{c['policy']} {e} {1 if (c['framing'] == 'cl' and tot == 0) else 0} " + (",".join(c["chunks"]) if c["chunks"] else "-")
-            return [f"exch {opt(case['limit'])} {opt(case['thr'])} {case['store']} {side(case['pre'])} {side(case)}"]
+            if case["op"] == "exch":
+                return [f"exch {opt(case['limit'])} {opt(case['thr'])} {case['store']} {side(case['pre'])} {side(case)}"]
+            # the position at which the response block was really delivered is the harness's own action (obs["at"])
+            key = json.dumps(case, sort_keys=True)
+            obs = self._stash[1] if getattr(self, "_stash", (None,))[0] == key else self.impl(case)
+            subs = self._sides(case, obs)
+            n = len(case["pre"]["chunks"])
+            at = "-" if obs["at"] is None else ("end" if obs["at"] > n else str(obs["at"]))
+            return [f"exchi {at} {opt(case['limit'])} {opt(case['thr'])} {case['store']} {side(subs[0][1])} {side(subs[1][1])}"]
         if case["op"] == "wire":
             fr = f"cl:{case['cl']}" if case["framing"] == "cl" else case["framing"]
             return [f"wire {case['dir']} {opt(case['limit'])} {opt(case['thr'])} {case['store']} {case['policy']} {fr} "
@@ -746,12 +994,14 @@ class Check(PropertyCheck):
     def model_obs(self, case, replies):
         r = replies[0]
         if case["op"] == "size" or r in ("rejected", "bad-op"): return r
-        if case["op"] == "exch":
+        if case["op"] in ("exch", "x2"):
             a, b = r.split(" | ")
             subs = self._sides(case, {"pre": None, "main": None})
-            mq = self.model_obs(subs[0][1], [a]); mr = self.model_obs(subs[1][1], [b])
+            mq = self.model_obs(subs[0][1], [a])
+            if case["op"] == "x2" and b.split(" ")[2] == "": return {"req": mq, "resp": None}      # response never delivered
+            mr = self.model_obs(subs[1][1], [b])
             # nothing of the response is handled after the request was refused
-            return {"req": mq, "resp": None if mq["err"] else mr}
+            return {"req": mq, "resp": None if (mq["err"] and case["op"] == "exch") else mr}
         f = r.split(" ")
         err, relayed, samples, peer, content = f[0] == "1", f[1] == "1", [int(x) for x in f[2].split(",")], f[3], f[4]
         if case["op"] == "wire":
@@ -774,7 +1024,7 @@ class Check(PropertyCheck):
         if case["op"] == "size":
             return "err" if obs["size"] == "err" else f"ok {obs['size']}"
         if obs.get("rejected"): return "rejected"
-        if case["op"] == "exch":
+        if case["op"] in ("exch", "x2"):
             subs = self._sides(case, obs)
             return {"req": self.impl_view(subs[0][1], obs["pre"]),
                     "resp": None if obs["main"] is None else self.impl_view(subs[1][1], obs["main"])}
@@ -787,7 +1037,7 @@ class Check(PropertyCheck):
 
     def classify(self, case, obs):
         if case["op"] == "size": return ("size", case["s_hex"]) if case["s_hex"] != "-" else None
-        if case["op"] == "exch":
+        if case["op"] in ("exch", "x2"):
             return json.dumps(case, sort_keys=True)
         if case["op"] == "wire":
             return ("wire", case["dir"], case["framing"], case.get("cl"), case["limit"], case["thr"], case["store"], case["policy"],
@@ -799,14 +1049,19 @@ class Check(PropertyCheck):
     def branches(self, case, obs):
         if case["op"] == "size": return ["size:" + ("err" if obs["size"] == "err" else "ok")]
         if obs.get("rejected"): return ["flow:option-rejected"]
-        if case["op"] == "exch":
+        if case["op"] in ("exch", "x2"):
             def verdict(o):
                 if o is None: return "not-reached"
                 if any(LIMIT_MSG in e for e in o["errors"]): return "over-limit"
                 if o["relayed"] and o["head_at"] is not None and o["head_at"] < o["n_deliveries"] - 1: return "streamed"
                 return "buffered"
-            return [f"exch:req-{verdict(obs['pre'])}/resp-{verdict(obs['main'])}", "exch:req-" + case["pre"]["framing"],
-                    "exch:resp-" + case["framing"]]
+            out = [f"exch:req-{verdict(obs['pre'])}/resp-{verdict(obs['main'])}", "exch:req-" + case["pre"]["framing"],
+                   "exch:resp-" + case["framing"]]
+            if case["op"] == "x2":
+                n = len(case["pre"]["chunks"])
+                pos = "never" if obs["at"] is None else "after" if obs["at"] > n else "before-body" if obs["at"] == 0 else "during"
+                out += [f"x2:{case['cp']}->{case['sp']}", "x2:response-" + pos]
+            return out
         if case["op"] == "wire":
             return ["wire:" + case["framing"], "wire:" + ("protocol-error" if obs["proto_err"] else "ok"),
                     "wire:segments=%d" % min(len(case["segs"]), 6), f"dir:{case['dir']}", f"policy:{case['policy']}"]
